@@ -64,6 +64,12 @@ def _hint_lost(msg):
     raise ExtractError(msg)
 
 
+class OrderViolation(Exception):
+    def __init__(self, fid, props, msg):
+        Exception.__init__(self, msg)
+        self.fid, self.props, self.msg = fid, props, msg
+
+
 class ExtractError(Exception):
     """Lost anchor / unsupported shape: the run is undecided (exit 2), never a violation."""
 
@@ -557,7 +563,9 @@ def build_slice(fs, canary=False):
     if d2 != 0:
         raise ExtractError("slice %s is not bracket-balanced" % fs.id)
     if fs.must_precede and _norm(fs.must_precede) in _norm(body[:b]):
-        raise ExtractError("slice %s: %r occurs before the end of the slice" % (fs.id, fs.must_precede))
+        # a decided, syntactic obligation (straight-line code): the statement that must come AFTER every fallible
+        # construction of the slice now comes before the end of it
+        raise OrderViolation(fs.id, fs.safety, "%r occurs before the end of the slice %r .. %r" % (fs.must_precede, fs.from_anchor, fs.to_anchor))
     if fs.must_precede and _norm(fs.must_precede) not in _norm(body[b:]):
         raise ExtractError("lost anchor: slice %s: %r no longer follows the slice" % (fs.id, fs.must_precede))
     applied = [("slice", "%s .. %s" % (fs.from_anchor, fs.to_anchor), "statements wrapped in a synthetic signature and tail (template text)")]
